@@ -2026,7 +2026,12 @@ impl<const MIN_ALIGN: usize> Bump<MIN_ALIGN> {
                             && limit < DEFAULT_CHUNK_SIZE_WITHOUT_FOOTER
                             && self.allocated_bytes() == 0);
 
-                if base_size >= min_new_chunk_size || bypass_min_chunk_size_for_small_limits {
+                // Never consider a zero-sized chunk: it cannot hold anything, and
+                // since `0 / 2 == 0` this iterator would otherwise never end for
+                // zero-sized requests under a small limit.
+                if base_size >= min_new_chunk_size
+                    || (bypass_min_chunk_size_for_small_limits && base_size > 0)
+                {
                     let size = base_size;
                     base_size /= 2;
                     Self::new_chunk_memory_details(Some(size), layout)
